@@ -52,7 +52,11 @@ func init() {
 					}
 				}
 			}
-			if ok && ir.HasFact(ir.GuardFacts(ret), " != const(0))") {
+			denNonZero := false
+			if quo != nil && len(quo.Call.Args) == 2 {
+				denNonZero = ir.HasFact(ir.GuardFacts(ret), "("+ir.Desc(quo.Call.Args[1])+" != const(0))")
+			}
+			if ok && denNonZero {
 				c.OK("C23a/CalculateCredit/weighted-average-with-weights-summing-to-denominator", c.P.InstrPos(ret), "convex combination of the current amount and the previous credit")
 			} else {
 				c.Fail("C23a/CalculateCredit/weighted-average-with-weights-summing-to-denominator", c.P.InstrPos(ret), "credit is "+trunc(d, 200)+" "+why)
